@@ -40,10 +40,14 @@ META = {
              "cryptographic secrecy is not claimed; 'plaintext absent' is a structural/bounded check",
              "parent links proved, key-file use bounded"),
     "C04": M("other",
-             "Bounded only so far: encode/decode round trips on the real format classes over a tree grammar (28k cases per quick run: all five formats, all options, +-inf, NaN, "
-             "-0.0, empty containers, strings needing escaping); no obligation of the XML converters is discharged yet.",
-             "json/yaml/bson/pickle/ElementTree/minidom laws are third-party and can only be assumed + sampled",
-             "bounded run-time contract checking of loads(dumps(t)) == t"),
+             "Proved for all inputs (129 obligations): /repo's part of every format. JSON/BSON/pickle wrappers hand tree and bytes through unchanged; the YAML root key wraps on the way "
+             "out exactly what it unwraps on the way in (falsy root key = none); 8 lemmas: each format decodes what it encoded and options (pretty/compact, root key) never change the "
+             "decoded tree; XML: _to_element tags every scalar with its own type (bool before int), one child per item/entry, TypeError only for non-basic values; _from_element "
+             "inverts every scalar case (lemmas: none/bool/int/str/float decode to themselves with their type); loads rejects a wrong root tag with ValueError and decodes under the "
+             "right one (lemma over two formatters). Bounded, not proved: the codec law parse(text(d)) == d of the five libraries (assumed; sampled by 28k round trips per quick run on "
+             "the real classes: all options, +-inf, NaN, -0.0, empty containers, strings needing escaping) and the deep (recursive) inverse of the XML converters on nested trees.",
+             "json/yaml/bson/pickle/ElementTree/minidom laws are third-party: assumed + sampled; recursive tree equality is outside the encoding",
+             "contracts on the real format classes discharged by z3/cvc5 + bounded run-time contract checking of loads(dumps(t)) == t"),
     "C05": M("other",
              "Proved: Field.validate (required / None / custom validator chain) against its virtual contract. The per-class exactness, idempotence and codec inverse clauses are "
              "decided by the bounded driver: every built-in field class x option grid (all pairs, boundaries, 0/None) x values of every Python type, against an independent "
